@@ -228,14 +228,10 @@ def cmd_gen():
 
 
 def make_copy(dst, m):
+    # from the committed tree (HEAD), not the working tree: a seed may be applied there meanwhile
     shutil.rmtree(dst, ignore_errors=True)
     os.makedirs(dst)
-    for d in ("src", "tests"):
-        shutil.copytree(os.path.join(REPO, d), os.path.join(dst, d),
-                        ignore=shutil.ignore_patterns("__pycache__", "*.pyc", "*.egg-info"))
-    for f in ("setup.cfg", "pyproject.toml", "setup.py"):
-        if os.path.exists(os.path.join(REPO, f)):
-            shutil.copy2(os.path.join(REPO, f), dst)
+    subprocess.run(f"git -C {REPO} archive HEAD src tests pyproject.toml | tar -x -C {dst}", shell=True, check=True)
     if m is not None:
         p = os.path.join(dst, PKG, m["file"])
         text = open(p).read()
